@@ -25,6 +25,11 @@ CLAIMED = {
         text="Integrate, negate momenta, integrate again returns the start state exactly (1 and 2 steps, both constraint branches; any step count by the group identity since the loop body is proved to be the same map every iteration); one step is exactly half kick - drift - half kick with dt*fs; every write is routed through set_positions/set_momenta with the integrator's flag; momentum refresh = standard normal * sqrt(m kT) with one draw per component, forced refresh gives kinetic temperature kT*r/(r+1e-15); the kinetic reference is taken after the refresh and before the integration.",
         note="k=2 atoms (bounded in atom count, unbounded in values); no constraints; second-order energy error is NOT proved (asymptotic) - only the bounded native measurement; lifting to n steps uses flip.Phi^n.flip=Phi^-n (Axioms.lean); A2/A3.",
         design="§7 C14"),
+    "C13": dict(
+        technique="contract-based deductive verification: real ForceBias.__init__/step/calculate_gamma/get_zeta/calculate_trial_probability executed symbolically in the pointwise array abstraction; the rejection loop cut by an invariant (init/preserve obligations, converged coordinates never re-drawn); exp overflow side conditions; Bal-Neyts spec function; native bounded stand-in incl. density moments",
+        text="Per coordinate: gamma = clip(F delta/2kT, +-709.782712); the trial probability equals the published Bal-Neyts acceptance function (1 where the denominator vanishes); every exp argument stays below the overflow threshold for all finite forces (so no inf-inf); at loop exit zeta in [-1,1) satisfies P(zeta)>u for its own draw; displacement = zeta*delta*(m_min/m)^p hence bounded by delta*(m_min/m)^p; exactly one set_momenta, one set_positions (constraints on), one force and one energy evaluation; P in [0,1] and along-force displacements favoured (lemmas).",
+        note="pointwise abstraction (generic coordinate) with trusted numpy reduction contracts; no constraints; almost-sure termination and 'accepted zeta has density ~P' (rejection-sampling theorem) are NOT proved; A2/A3; cosh-monotonicity lemma instance supplied.",
+        design="§7 C13"),
 }
 PENDING_REASON = "check not yet registered in this revision (under construction; see DESIGN.md §0/§7 for the plan)"
 
